@@ -38,7 +38,8 @@ RULE = ("a case is one admissible lattice point (nxseg, f_n/fs, xi, channels, fs
         "at level 1, through the setup class as well; admissible = half-power bandwidth 2 xi f_n spans >= 4 lines and the half "
         "record holds >= 30 periods, decided from (f_n, xi, nxseg, fs) only; every admissible case is non-trivial (the estimate "
         "comes from a fit of 20 correlation extrema of the inverse-transformed bell); distinct by lattice coordinates; the points at a "
-        "sampling rate that is not a whole number of Hz are judged at level 1 only (function and setup class); the points of the "
+        "sampling rate that is not a whole number of Hz, and the points whose analysis band is wider than the distance to 0 Hz (band = '1 fn' ... "
+        "'3 fn', 'default'), are judged at level 1 only (function and setup class); the points of the "
         "interactive route (mpe_from_plot through the real dialog) are one (nxseg, f_n/fs, xi, view, method) each, level 1, distinct by "
         "these coordinates")
 ASSUMPTIONS = [
